@@ -264,6 +264,8 @@ pub trait Sender {
     fn set_seq(&mut self, v: u64);
     fn seq_state(&self) -> (u64, bool);
     fn teardown_scan(self: Box<Self>, pats: &[Vec<u8>]) -> Res<Scan>;
+    /// drops the context while the current thread is unwinding from a panic
+    fn drop_unwinding(self: Box<Self>);
 }
 pub trait Receiver {
     fn open(&mut self, ct: &[u8], aad: &[u8]) -> Res<Vec<u8>>;
@@ -273,6 +275,8 @@ pub trait Receiver {
     fn set_seq(&mut self, v: u64);
     fn seq_state(&self) -> (u64, bool);
     fn teardown_scan(self: Box<Self>, pats: &[Vec<u8>]) -> Res<Scan>;
+    /// drops the context while the current thread is unwinding from a panic
+    fn drop_unwinding(self: Box<Self>);
 }
 
 pub trait Suite: Sync {
@@ -398,6 +402,13 @@ impl<A: Aead + 'static, K: Kdf + 'static, M: Kem + 'static> Sender for SCtx<A, K
     fn teardown_scan(self: Box<Self>, pats: &[Vec<u8>]) -> Res<Scan> {
         scan_drop::<AeadCtxS<A, K, M>>(self.0, pats)
     }
+    fn drop_unwinding(self: Box<Self>) {
+        let ctx = self.0;
+        let _ = guard(move || {
+            let _owned = ctx; // dropped by the unwinder
+            std::panic::panic_any("simulated caller panic while a context is alive");
+        });
+    }
 }
 impl<A: Aead + 'static, K: Kdf + 'static, M: Kem + 'static> Receiver for RCtx<A, K, M> {
     fn open(&mut self, ct: &[u8], aad: &[u8]) -> Res<Vec<u8>> {
@@ -420,6 +431,13 @@ impl<A: Aead + 'static, K: Kdf + 'static, M: Kem + 'static> Receiver for RCtx<A,
     }
     fn teardown_scan(self: Box<Self>, pats: &[Vec<u8>]) -> Res<Scan> {
         scan_drop::<AeadCtxR<A, K, M>>(self.0, pats)
+    }
+    fn drop_unwinding(self: Box<Self>) {
+        let ctx = self.0;
+        let _ = guard(move || {
+            let _owned = ctx; // dropped by the unwinder
+            std::panic::panic_any("simulated caller panic while a context is alive");
+        });
     }
 }
 
